@@ -30,6 +30,8 @@ pub enum Enc {
     Stable,
     /// The solver's constructor that takes no encoder (`new_with_sat_solver_factory`).
     Default,
+    /// The solver's `new(af)` constructor (no factory, no encoder): the SAT boundary is not observed.
+    New,
     /// `encodings::new_default_complete_constraints_encoder()`, the encoder the solvers' doc examples pass.
     HelperCo,
     /// `encodings::new_default_conflict_freeness_encoder()`.
@@ -48,6 +50,7 @@ impl Enc {
             Enc::Hybrid => "hybrid",
             Enc::Stable => "stable",
             Enc::Default => "constructor-default",
+            Enc::New => "constructor-new",
             Enc::HelperCo => "helper-default-complete",
             Enc::HelperCf => "helper-default-conflict-freeness",
         }
@@ -63,6 +66,7 @@ impl Enc {
             Enc::Hybrid,
             Enc::Stable,
             Enc::Default,
+            Enc::New,
             Enc::HelperCo,
             Enc::HelperCf,
         ]
@@ -71,7 +75,7 @@ impl Enc {
     }
     pub fn make<T: HLabel>(self) -> Box<dyn ConstraintsEncoder<T>> {
         match self {
-            Enc::None | Enc::Default => panic!("harness: no encoder object for this configuration"),
+            Enc::None | Enc::Default | Enc::New => panic!("harness: no encoder object for this configuration"),
             Enc::HelperCo => crustabri::encodings::new_default_complete_constraints_encoder(),
             Enc::HelperCf => crustabri::encodings::new_default_conflict_freeness_encoder(),
             Enc::AuxCf => Box::new(aux_var_constraints_encoder::new_for_conflict_freeness()),
@@ -87,9 +91,10 @@ impl Enc {
     /// (`Default` = what the constructor without encoder argument uses).
     pub fn resolved(self, ty: SolverType) -> Enc {
         match (self, ty) {
-            (Enc::Default, SolverType::Stage) => Enc::AuxCf,
-            (Enc::Default, SolverType::Stable) => Enc::Stable,
-            (Enc::Default, _) => Enc::AuxCo,
+            (Enc::Default | Enc::New, SolverType::Stage) => Enc::AuxCf,
+            (Enc::Default | Enc::New, SolverType::Stable) => Enc::Stable,
+            (Enc::Default | Enc::New, SolverType::Grounded) => Enc::None,
+            (Enc::Default | Enc::New, _) => Enc::AuxCo,
             (e, _) => e,
         }
     }
@@ -187,6 +192,15 @@ impl SolverType {
             _ => &[Enc::AuxCo, Enc::ExpCo, Enc::Hybrid, Enc::Default, Enc::HelperCo],
         }
     }
+    /// `encoders` plus the `new(af)` constructor, which accepts no SAT-solver factory (so it is only
+    /// used where the check judges answers, not the SAT boundary).
+    pub fn configs(self, k: QKind) -> Vec<Enc> {
+        let mut v = self.encoders(k).to_vec();
+        if self != SolverType::Grounded {
+            v.push(Enc::New);
+        }
+        v
+    }
 }
 
 pub const ALL_SOLVER_TYPES: [SolverType; 7] = [
@@ -235,6 +249,12 @@ impl<'a, T: HLabel> StaticSolver<'a, T> {
     ) -> Self {
         match ty {
             SolverType::Grounded => StaticSolver::GR(GroundedSemanticsSolver::new(af)),
+            SolverType::Complete if enc == Enc::New => StaticSolver::CO(CompleteSemanticsSolver::new(af)),
+            SolverType::Preferred if enc == Enc::New => StaticSolver::PR(PreferredSemanticsSolver::new(af)),
+            SolverType::Stable if enc == Enc::New => StaticSolver::ST(StableSemanticsSolver::new(af)),
+            SolverType::SemiStable if enc == Enc::New => StaticSolver::SST(SemiStableSemanticsSolver::new(af)),
+            SolverType::Stage if enc == Enc::New => StaticSolver::STG(StageSemanticsSolver::new(af)),
+            SolverType::Ideal if enc == Enc::New => StaticSolver::ID(IdealSemanticsSolver::new(af)),
             SolverType::Complete if enc == Enc::Default => StaticSolver::CO(CompleteSemanticsSolver::new_with_sat_solver_factory(af, factory)),
             SolverType::Complete => StaticSolver::CO(
                 CompleteSemanticsSolver::new_with_sat_solver_factory_and_constraints_encoder(
